@@ -278,6 +278,34 @@ def selectByAfter (isWord : Char → Bool) (lower : List Char → List Char) (ex
   | .error e => .error e
   | .ok a => .ok (selectIdx (fun t => !expr.isEmpty && eval (kwMatch lower (kwNames t)) a) tasks)
 
+/-! ## `after="<expr>"` over a whole project (`_modify_dag`, dag.py:107-127, string branch) -/
+
+/-- One iteration of the loop for task `i` carrying the string `expr`: `signatures = select_by_after_keyword(session,
+after); signatures.discard(task.signature)` — the tasks this task has to follow. -/
+def afterPredsOf (isWord : Char → Bool) (lower : List Char → List Char) (tasks : List TaskInfo) (i : Nat)
+    (expr : List Char) : Except CErr (List Nat) :=
+  (selectByAfter isWord lower expr tasks).map (fun sel => sel.filter (fun j => j != i))
+
+/-- The body of the loop for task `i`: nothing to do without string. -/
+def afterStep (isWord : Char → Bool) (lower : List Char → List Char) (tasks : List TaskInfo)
+    (afters : Nat → Option (List Char)) (i : Nat) : Except CErr (List Nat) :=
+  match afters i with
+  | none => .ok []
+  | some e => afterPredsOf isWord lower tasks i e
+
+/-- The loop over `session.tasks` (visited in `order`): for every task its after-predecessors; the first malformed
+string aborts. No iteration reads anything another iteration computed. -/
+def modifyDagAfter (isWord : Char → Bool) (lower : List Char → List Char) (tasks : List TaskInfo)
+    (afters : Nat → Option (List Char)) : List Nat → Except CErr (List (Nat × List Nat))
+  | [] => .ok []
+  | i :: rest =>
+    match afterStep isWord lower tasks afters i with
+    | .error e => .error e
+    | .ok ps =>
+      match modifyDagAfter isWord lower tasks afters rest with
+      | .error e => .error e
+      | .ok r => .ok ((i, ps) :: r)
+
 end Pytask.SelExpr
 
 namespace Pytask.SelExpr
